@@ -36,6 +36,9 @@ type Driver struct {
 	MaxSize int // largest payload size hint the generator may ask for
 	Open    func(dir string) (Log, error)
 	Gen     func(rng *rand.Rand, id, epoch uint64, size int) Ent
+	// GenRejected (optional) builds an entry whose MarshalCBOR fails AFTER having emitted some
+	// bytes (an over-long field): Append must refuse it and leave no trace in the log.
+	GenRejected func(rng *rand.Rand, id, epoch uint64) Ent
 
 	// Tuning (zero values = the design's rule). They exist because reading a
 	// log costs one read syscall per CBOR header byte in the code under test,
@@ -64,6 +67,7 @@ const (
 	opPurge         = "purge"
 	opCopyReopen    = "copy_reopen"
 	opRead          = "read"
+	opAppendReject  = "append_rejected"
 	opFinal         = "final_append"
 )
 
@@ -564,6 +568,14 @@ func GenHistory(rng *rand.Rand, drv Driver, profile string) []Op {
 				}
 				ops = append(ops, Op{Kind: opPurge, Epoch: lo + 1 + uint64(rng.Intn(int(hi-lo)))})
 			}
+			if drv.GenRejected != nil && rng.Intn(100) < 6 {
+				// an append the encoder refuses half-way, followed by acknowledged ones into the same file
+				ops = append(ops, Op{Kind: opAppendReject, Epoch: g.next(rng)})
+				for k := 1 + rng.Intn(2); k > 0; k-- {
+					ops = append(ops, Op{Kind: opAppend, Size: fineSizeN(rng, 400), Epoch: g.next(rng)})
+				}
+				ops = append(ops, Op{Kind: opRead})
+			}
 			if rng.Intn(100) < 55 {
 				ops = append(ops, Op{Kind: opAppend, Size: fineSize(rng, drv), Epoch: g.next(rng)})
 			} else {
@@ -675,6 +687,22 @@ func RunHistory(drv Driver, caseNo int, seed int64, root string, bulkEvery int, 
 				finalFile, fb, fa = f, b, a
 				finalEnt = w.m.byID[e.ID]
 			}
+		case opAppendReject:
+			e := drv.GenRejected(rng, h.nextID, op.Epoch)
+			h.nextID++
+			before := dirBytes(listDir(w.dir))
+			err := w.log.Append(e)
+			h.st.add("appends_rejected_by_encoder", 1)
+			if err == nil {
+				// the encoder's refusal was swallowed: the entry is not one the harness can match
+				h.violation("Append acknowledged an entry whose encoding failed (ctx=append-rejected)", map[string]any{"entry_id": e.ID})
+				w.dead = true
+				break
+			}
+			if after := dirBytes(listDir(w.dir)); after != before {
+				h.st.add("rejected_append_changed_directory_size", 1)
+			}
+			w.readCheck(w.log, "after-rejected-append", false)
 		case opRotate:
 			if err := w.log.Rotate(); err != nil {
 				h.st.add("rotate_errors", 1)
